@@ -75,15 +75,32 @@ def line_counter_rules(chk, P):
         good = len(inc) == 1 and inc[0][1] in ("AddWithOverflow(self.line, 1).0", "Add(self.line, 1)")
         if good:
             gd = panrules.guards_at(P, g, inc[0][0])
-            good = any(x[0] == "Eq" and x[1] == "some!(Iterator::next(self.iter)).kind" and x[2] == "TokenKind::Eol{}" for x in gd)
+            good = any(x[0] == "Eq" and x[1] == "some!(Iterator::next(self.iter)).kind" and x[2] == "TokenKind::Eol{}" for x in gd) \
+                or any(x[0] == "variant" and x[1] == "some!(Iterator::next(self.iter)).kind" and tuple(x[2]) == ("Eol",) for x in gd)    # `matches!(tok.kind, Eol)`
+        if not good and len(inc) == 1 and inc[0][1] in ("AddWithOverflow(self.line, 1).0", "Add(self.line, 1)"):
+            # `if matches!(tok.kind, Eol)` tests a flag set in the arms of a match: the kind test does not *dominate* the
+            # increment block, but every path through it has decided `kind == Eol` (path-sensitive reading)
+            _a, _b = sorted(["some!(Iterator::next(self.iter)).kind", "TokenKind::Eol{}"])
+            through = [pi for pi in tab.paths(P, g, to_return_only=True) if inc[0][0] in pi.path]
+            good = bool(through) and all(any(d[0] == "variant" and d[1] == "some!(Iterator::next(self.iter)).kind" and tuple(d[2]) == ("Eol",) for d in pi.decisions())
+                                         or ("Eq(%s, %s)" % (_a, _b), True) in tab.path_facts(pi) for pi in through)
         chk.require(good, "GUARD", "GUARD:get:line+1-iff-consumed-Eol", "self.line += 1 exactly on the edge tok.kind == Eol", "Parser::get updates line as %s" % inc)
         # exact table: every feasible entry->return path, the facts it decides, how often it bumps the line
         incb = set(bb for bb, _ in inc)
         rows = set()
-        for pi in tab.paths(P, g, to_return_only=True):
-            rows.add((tab.path_facts(pi), sum(1 for bb in pi.path if bb in incb), ordrules.ret_shape(pi)))
         NX, K, E = "variant(Iterator::next(self.iter))", "some!(Iterator::next(self.iter)).kind", "TokenKind::Eol{}"
         a, b_ = sorted([K, E])
+
+        def _kind_test(f):
+            # `tok.kind == Eol` and `matches!(tok.kind, Eol)` are one test
+            if f[0] == "variant(%s)" % K and isinstance(f[1], tuple):
+                if tuple(f[1]) == ("Eol",):
+                    return ("Eq(%s, %s)" % (a, b_), True)
+                if "Eol" not in f[1]:
+                    return ("Ne(%s, %s)" % (a, b_), True)
+            return f
+        for pi in tab.paths(P, g, to_return_only=True):
+            rows.add((frozenset(_kind_test(f) for f in tab.path_facts(pi)), sum(1 for bb in pi.path if bb in incb), ordrules.ret_shape(pi)))
         want = {(frozenset([(NX, ("None",))]), 0, "Err"),
                 (frozenset([(NX, ("Some",)), ("Eq(%s, %s)" % (a, b_), True)]), 1, "Ok"),
                 (frozenset([(NX, ("Some",)), ("Ne(%s, %s)" % (a, b_), True)]), 0, "Ok")}
